@@ -7,10 +7,10 @@ import time
 from framework.checklib import CorrResult
 from framework import coqrun
 from harness import arithcorr as ac
-from translator import t1_operators, t4_arith
+from translator import t1_operators, t4_arith, t14_arith_gen
 
 ID = 'C09'
-TRANSLATORS = [t1_operators.translate, t4_arith.translate]
+TRANSLATORS = [t1_operators.translate, t4_arith.translate, t14_arith_gen.translate]
 PROPERTY_FILE = 'Properties/C09.v'
 THEOREMS = [
     'C09_truth_table_gate_types', 'C09_every_generator_only_extends', 'C09_extension_meaning',
@@ -25,6 +25,7 @@ THEOREMS = [
     'C09_sub_works', 'C09_sub_with_compare_works', 'C09_div_mod_works', 'C09_sqrt_works', 'C09_equal_works',
     'C09_plus_one_works', 'C09_if_then_else_works', 'C09_pairwise_if_then_else_works',
     'C09_pairwise_xor_works',
+    'C09_generators_regenerated',
 ]
 PARTIAL = {}
 LEVEL_TEXT = ('every generator of the property (subtraction, subtract-with-compare, div-mod incl. b = 0, sqrt, '
@@ -33,9 +34,14 @@ LEVEL_TEXT = ('every generator of the property (subtraction, subtract-with-compa
               'every choice of operand gates and every add_outputs / result_labels option, by ripple / loop '
               'invariants over the builder model; "only fresh gates, old gates keep their function, inputs '
               'unchanged, outputs appended only when asked" is proved once for every builder program; the model '
-              'is tied to /repo by regenerating binary_tt_to_type and the straight-line cells (translator T4) and '
-              'by netlist-equality correspondence on every run')
-LEVEL_NOTE = ('Coq kernel + vm_compute; translators T1, T4; correspondence harness (label renaming by creation index); '
+              'is tied to /repo by regenerating binary_tt_to_type and the straight-line cells (translator T4), by '
+              'regenerating the ALGORITHM of every add_* generator and generate_* wrapper statement by statement '
+              '(translator T14) with a proof that each regenerated program runs exactly like the hand model for '
+              'all arguments (C09_generators_regenerated), and by netlist-equality correspondence on every run')
+LEVEL_NOTE = ('Coq kernel + vm_compute; translators T1, T4, T14 (T14: Python ints as Z, list mutation as rebinding '
+              'under an ownership discipline, the Python built-ins as the fixed prelude Model/PyPrims.v; '
+              'add_sum_two_numbers inside add_sqrt stays the hand model of C07; the only side condition of the tie is '
+              'size_of_input_a >= 0 for generate_sub_two_numbers); correspondence harness (label renaming by creation index); '
               'each value theorem is stated for a model run that returns Ok; that the run does return Ok for existing '
               'operand gates, documented widths and new, distinct caller-chosen labels is proved separately '
               '(C09_*_works) for every injective naming function of the uuid counter (pairwise if-then-else: result '
@@ -44,7 +50,9 @@ LEVEL_NOTE = ('Coq kernel + vm_compute; translators T1, T4; correspondence harne
 TECHNIQUE = ('Coq proof: generators as programs of a deep-embedded builder monad over the Circuit model; one generic '
              'extension theorem by induction on programs + a step lemma per added gate; value theorems by induction '
              'on operand lists with borrow/carry invariants, restoring-division and digit-by-digit square-root '
-             'invariants (lia/nia); regenerated truth-table dictionary and cells; netlist-equality correspondence '
+             'invariants (lia/nia); regenerated truth-table dictionary and cells; generator algorithms regenerated '
+             'from the source as builder programs and proved extensionally equal to the model (index loops vs '
+             'structural recursion, in-place stores vs list construction, bin/zfill digits vs const_bits); netlist-equality correspondence '
              'under vm_compute; direct oracle through Circuit.evaluate_full_circuit')
 TRUSTED = ['uuid4 is modelled as a counter with a naming function that is universally quantified in every theorem; '
            'freshness of each new label is established by the modelled has_gate retry loop, not assumed',
